@@ -162,3 +162,59 @@ package lite
 //@   at-call FindRouteWithGroups as find: assert [search-with-the-cleaned-host] called(clean) && streq(arg0, res(clean)) && ref(arg1) == ref(routes) && len(arg1) == len(routes)
 //@   at-call substituteBackendParams as sub: assert [captures-go-into-the-backends] called(find) && res(find, 1) != nil && ref(arg1) == ref(res(find, 2)) && len(arg1) == len(res(find, 2))
 //@   ensures [unmatched-host-dials-nothing] called(find) && res(find, 1) == nil ==> err != nil && nextBackend == nil && route == nil
+
+// ---- C32: the ping cache never serves a status from before a reset ----------------------------------------------------
+// The cache generation and every cache operation live under the cache's lock.
+//@ guarded_by pingStatusCache.mu : generation
+
+// Reset: bump the generation and purge, in ONE critical section (a fetch finishing in between would otherwise pass the
+// generation guard and store into the emptied cache).
+//@ func (*pingStatusCache).reset
+//@   props C32
+//@   at-store generation: assert [bumped-under-the-lock] held(c.mu) == wlocked && value == c.generation + 1
+//@   at-call DeleteAll as purge: assert [purged-in-the-critical-section-of-the-bump] held(c.mu) == wlocked && arg0 == c.cache
+
+// Lookups run under the lock; an entry whose expiry time has been reached is removed and not returned.
+//@ func (*pingStatusCache).get
+//@   props C32
+//@   at-call getLocked as g: assert held(c.mu) == wlocked && arg0 == c && arg1 == key
+//@   ensures called(g) && result == res(g)
+//@ func (*pingStatusCache).getLocked
+//@   props C32
+//@   requires held(c.mu) == wlocked
+//@   at-call Get as look: assert arg0 == c.cache && arg1 == key
+//@   at-call ExpiresAt as exp: assert called(look) && res(look) != nil && arg0 == res(look)
+//@   at-call IsZero as never: assert called(exp)
+//@   at-call Before as fresh: assert [expiry-against-the-cache-clock] called(never) && !res(never) && arg1 == res(exp)
+//@   at-call Delete as drop: assert [expired-entries-are-removed] called(fresh) && !res(fresh) && arg0 == c.cache && arg1 == key
+//@   at-call Value as val: assert arg0 == res(look) && (res(never) || (called(fresh) && res(fresh)))
+//@   ensures [missing-or-expired-is-a-miss] (called(look) && res(look) == nil) || (called(fresh) && !res(fresh)) ==> result == nil
+//@   ensures [still-locked] held(c.mu) == wlocked
+
+// Load: the generation is read in the critical section of the first lookup; the fetch itself runs without the lock;
+// its result is stored only if no reset happened since (generation compared under the lock, in the critical section of
+// the store), under the same key and TTL. The single-flight key carries the generation, so a request that starts after
+// a reset never joins a fetch that started before it.
+//@ func (*pingStatusCache).load
+//@   props C32
+//@   at-call getLocked as first: assert held(c.mu) == wlocked && arg1 == key && generation == c.generation
+//@   at-call Sprintf as fk: assert len(arg1) == 4 && dyntype(arg1[0], "uint64") && cast(arg1[0], uint64) == generation
+//@   at-call DoChan as flight: assert [one-fetch-per-key-and-generation] held(c.mu) == none && called(fk) && streq(arg1, res(fk)) && arg0 == c.group
+//@   ensures [a-hit-is-returned-without-fetching] called(first) && res(first) != nil ==> !called(flight)
+//@ func (*pingStatusCache).load$1
+//@   props C32
+//@   at-call getLocked as again: assert held(c.mu) == wlocked && generation == c.generation && arg1 == key
+//@   at-call dyn.load as fetch: assert [fetch-without-the-lock] held(c.mu) == none
+//@   at-call Set as store: assert [stored-only-if-no-reset-since] held(c.mu) == wlocked && generation == c.generation && called(fetch) && arg0 == c.cache && arg1 == key && arg2 == res(fetch) && arg3 == ttl
+//@   ensures [what-was-fetched-is-returned] called(fetch) ==> result.1 == nil
+
+// The fallback status: nothing without a configured fallback; ResolveStatusResponseWithGeneration consults it only
+// after tryBackends reported an error (every backend failed).
+//@ func handleFallbackResponse
+//@   props C32
+//@   at-call Response as fb: assert route != nil && route.Fallback != nil && arg0 == route.Fallback && arg1 == protocol
+//@   ensures [no-fallback-configured-no-fallback] route == nil || route.Fallback == nil ==> result.0 == nil && !called(fb)
+//@ func ResolveStatusResponseWithGeneration
+//@   props C32
+//@   at-call tryBackends as try
+//@   at-call handleFallbackResponse as fallback: assert [fallback-only-after-every-backend-failed] called(try) && res(try, 3) != nil
